@@ -127,8 +127,25 @@ def vector_item_pool():
         elif isinstance(o, (list, tuple)):
             for x in o:
                 walk(x, depth + 1)
-    for _, obj, _ in templates():
+    temps = templates()
+    for _, obj, _ in temps:
         walk(obj)
+    # vectors whose items are parsed through a variant class: one corpus object of EVERY alternative of the variant (an
+    # alternative no corpus vector happens to hold - the HelloRetryRequest form of key_share in a server extension list -
+    # is an item a caller can put there all the same)
+    by_type = {}
+    for cls, obj, _ in temps:
+        by_type.setdefault(cls, obj)
+    for vcls in corpus.all_subclasses(ArrayBase):
+        try:
+            item_class = vcls.get_param().item_class
+            alts = list(item_class._get_variant_types())          # pylint: disable=protected-access
+        except Exception:  # pylint: disable=broad-except
+            continue
+        have = {type(x) for x in _POOL.get(vcls, [])}
+        for a in alts:
+            if a in by_type and a not in have:
+                _POOL.setdefault(vcls, []).append(copy.deepcopy(by_type[a]))
     _POOL.setdefault(object, [])
     return _POOL
 
